@@ -75,6 +75,7 @@ func (w *c15World) inflightReload(ne, gateAt int, extra func()) {
 		return
 	}
 	w.ops = append(w.ops, c15Op{Op: "inflight-batch", N: ne, M: gateAt})
+	w.tag = "after-reload-inflight"
 	lw := w.live[0]
 	s0 := w.subs[0]
 	g := &c15Gate{entered: make(chan struct{}), release: make(chan struct{})}
@@ -238,6 +239,7 @@ func (w *c15World) twoStreams(k int, val string, viaReload bool) {
 	}
 	x, y := w.live[0], w.live[1]
 	s0, s1 := w.subs[0], w.subs[1]
+	w.tag = "two-streams-out-of-step"
 	w.put(0, k, val)
 	w.del(0, k)
 	evs := w.etcd.events(w.delivered, w.delivered+2)
